@@ -540,3 +540,225 @@ example : (dispatch ["visit_N", "depart_N", "visit_low", "depart_low"] "visit_" 
 example : (dispatch ["visit_N", "depart_N"] "visit_" "SubN") = .unknown := by decide
 
 end Visitor
+
+/-! ## the departure-less traversal `Visitor.walk`
+
+The theorems above prove the property for `Visitor.walkabout` (the traversal pydoctor's AST builder uses).
+`visitor.py` has a second public traversal, `Visitor.walk`, which calls `visit()` only; the docstring says it is
+"similar, except" for the departures.  The statements below make "similar" exact, for every tree, every
+assignment of pruning actions and every list of extension timings:
+
+* `walk_is_walkabout_visits` — the trace of `walk` is the trace of `walkabout` with the departure events
+  erased, and `SkipSiblings` reaches the caller in the same cases;
+* `walk_meaning` — it is the documented enter-only walk over the tree pruned as the four docstrings say
+  (`SkipDeparture` "not applicable; ignore");
+* `walk_visits_only`, `walk_enter_once`, `walk_ext_preorder`, `walk_main_preorder` — no departure is ever
+  called, no extension (nor the main visitor) enters a node twice, and each of them sees the reached nodes in
+  preorder;
+* `walk_same_nodes_as_walkabout` — every extension enters under `walk` exactly the nodes it enters under
+  `walkabout`, in the same order.
+-/
+
+namespace Visitor
+
+/-- an event is an entry (`visit_*`), not a departure -/
+def isVisit (e : Event) : Bool := e.kind == .visit
+
+theorem filter_isVisit_evs_visit (id : Nat) (l : List Nat) :
+    (evs .visit id l).filter isVisit = evs .visit id l := by
+  induction l with
+  | nil => simp [evs]
+  | cons x xs ih =>
+    simp only [evs, List.map_cons] at ih ⊢
+    simp [isVisit, ih]
+
+theorem filter_isVisit_evs_depart (id : Nat) (l : List Nat) :
+    (evs .depart id l).filter isVisit = [] := by
+  induction l with
+  | nil => simp [evs]
+  | cons x xs ih =>
+    simp only [evs, List.map_cons] at ih ⊢
+    simp [isVisit, ih]
+
+theorem filter_isVisit_visitEvents (exts : List When) (id : Nat) :
+    (visitEvents exts id).filter isVisit = visitEvents exts id := by
+  simp [visitEvents, List.filter_append, filter_isVisit_evs_visit, isVisit]
+
+theorem filter_isVisit_departEvents (exts : List When) (id : Nat) (b : Bool) :
+    (departEvents exts id b).filter isVisit = [] := by
+  cases b <;> simp [departEvents, List.filter_append, filter_isVisit_evs_depart, isVisit]
+
+theorem walk_stop (exts : List When) (id : Nat) (act : Act) (cs : List Tree) :
+    (walk exts (.node id act cs)).2 = decide (act = .skipSiblings) := by
+  cases act <;> simp [walk]
+
+mutual
+theorem walk_filter (exts : List When) :
+    (t : Tree) → (walk exts t).1 = (walkabout exts t).1.filter isVisit
+  | .node id act cs => by
+    cases act <;>
+      simp [walk, walkabout, List.filter_append, filter_isVisit_visitEvents, filter_isVisit_departEvents,
+        walkKids_filter exts cs]
+theorem walkKids_filter (exts : List When) :
+    (ts : List Tree) → walkKids exts ts = (walkChildren exts ts).filter isVisit
+  | [] => by simp [walkKids, walkChildren]
+  | (.node id act cs) :: ts => by
+    have h1 := walk_filter exts (.node id act cs)
+    have h2 := walkKids_filter exts ts
+    by_cases h : act = .skipSiblings
+    · subst h
+      simp [walkKids, walkChildren, walk_stop, walkabout_stop, h1]
+    · simp [walkKids, walkChildren, walk_stop, walkabout_stop, h1, h2, h, List.filter_append]
+end
+
+/-! ## the enter-only documented walk -/
+
+mutual
+/-- the documented walk without departures over a pruned tree: enter block, then the children left to right -/
+def specVisits (exts : List When) : PTree → List Event
+  | .node id _ cs => visitEvents exts id ++ specVisitsList exts cs
+def specVisitsList (exts : List When) : List PTree → List Event
+  | [] => []
+  | t :: ts => specVisits exts t ++ specVisitsList exts ts
+end
+
+mutual
+theorem specTrace_filter (exts : List When) :
+    (p : PTree) → (specTrace exts p).filter isVisit = specVisits exts p
+  | .node id md cs => by
+    simp [specTrace, specVisits, List.filter_append, filter_isVisit_visitEvents, filter_isVisit_departEvents,
+      specList_filter exts cs]
+theorem specList_filter (exts : List When) :
+    (ps : List PTree) → (specList exts ps).filter isVisit = specVisitsList exts ps
+  | [] => by simp [specList, specVisitsList]
+  | p :: ps => by
+    simp [specList, specVisitsList, List.filter_append, specTrace_filter exts p, specList_filter exts ps]
+end
+
+theorem restrict_filter_isVisit (w : Who) (tr : List Event) :
+    restrict w (tr.filter isVisit) = (restrict w tr).filter (fun x => x.1 = .visit) := by
+  unfold restrict
+  rw [List.filter_map, List.filter_filter, List.filter_filter]
+  congr 1
+  apply List.filter_congr
+  intro e _
+  cases hk : e.kind <;> simp [isVisit, hk]
+
+-- the main visitor's bracket word: its entries are the reached nodes in preorder as well
+mutual
+theorem visits_mainBrackets : (p : PTree) →
+    ((mainBrackets p).filter (fun x => x.1 = .visit)).map (·.2) = pids p
+  | .node id md cs => by
+    cases md <;> simp [mainBrackets, pids, visits_mainBracketsList cs]
+theorem visits_mainBracketsList : (ps : List PTree) →
+    ((mainBracketsList ps).filter (fun x => x.1 = .visit)).map (·.2) = pidsList ps
+  | [] => by simp [mainBracketsList, pidsList]
+  | p :: ps => by simp [mainBracketsList, pidsList, visits_mainBrackets p, visits_mainBracketsList ps]
+end
+
+/-! ## Property theorems for `Visitor.walk` -/
+
+/-- **walk_is_walkabout_visits**: `walk` is `walkabout` with every departure erased — same entries, same order,
+same pruning — and `SkipSiblings` reaches the caller in exactly the same cases. -/
+theorem walk_is_walkabout_visits (exts : List When) (t : Tree) :
+    walk exts t = ((walkabout exts t).1.filter isVisit, (walkabout exts t).2) := by
+  cases t with
+  | node id act cs =>
+    apply Prod.ext
+    · exact walk_filter exts _
+    · simp [walk_stop, walkabout_stop]
+
+/-- **walk_meaning**: the walk performed by `walk` is the documented enter-only walk over the pruned tree. -/
+theorem walk_meaning (exts : List When) (t : Tree) :
+    (walk exts t).1 = specVisits exts (prune t) := by
+  rw [walk_filter, prune_meaning, specTrace_filter]
+
+theorem walk_escape_iff (exts : List When) (id : Nat) (act : Act) (cs : List Tree) :
+    (walk exts (.node id act cs)).2 = true ↔ act = .skipSiblings := by
+  simp [walk_stop]
+
+/-- **walk_visits_only**: `walk` never calls a departure, of the main visitor or of an extension. -/
+theorem walk_visits_only (exts : List When) (t : Tree) :
+    ∀ e ∈ (walk exts t).1, e.kind = .visit := by
+  intro e he
+  rw [walk_filter] at he
+  have := (List.mem_filter.mp he).2
+  simpa [isVisit] using this
+
+/-- **walk_ext_preorder**: one registered extension sees, under `walk`, the reached nodes in preorder. -/
+theorem walk_ext_preorder (exts : List When) (t : Tree) (e : Nat) (he : e < exts.length) :
+    (restrict (.ext e) (walk exts t).1).map (·.2) = pids (prune t) := by
+  rw [walk_filter, restrict_filter_isVisit, nested exts t e he, visits_brackets]
+
+/-- the main visitor sees the same nodes in the same order -/
+theorem walk_main_preorder (exts : List When) (t : Tree) :
+    (restrict .main (walk exts t).1).map (·.2) = pids (prune t) := by
+  rw [walk_filter, restrict_filter_isVisit, main_trace, visits_mainBrackets]
+
+/-- **walk_enter_once**: with distinct nodes, no extension enters a node twice under `walk`. -/
+theorem walk_enter_once (exts : List When) (t : Tree) (e : Nat) (he : e < exts.length)
+    (hn : (ids t).Nodup) :
+    ((restrict (.ext e) (walk exts t).1).map (·.2)).Nodup := by
+  rw [walk_ext_preorder exts t e he]
+  exact List.Sublist.nodup (pids_sublist t) hn
+
+/-- **walk_same_nodes_as_walkabout**: an extension enters, under `walk`, exactly the nodes it enters under
+`walkabout`, in the same order. -/
+theorem walk_same_nodes_as_walkabout (exts : List When) (t : Tree) (e : Nat) :
+    restrict (.ext e) (walk exts t).1
+      = (restrict (.ext e) (walkabout exts t).1).filter (fun x => x.1 = .visit) := by
+  rw [walk_filter, restrict_filter_isVisit]
+
+/-- the entry order inside one node is the documented one under `walk` too: the trace of a leaf is
+`visitEvents` (BEFORE, OUTTER, main, AFTER, INNER — `order_visit`). -/
+theorem walk_leaf (exts : List When) (id : Nat) (act : Act) :
+    (walk exts (.node id act [])).1 = visitEvents exts id := by
+  cases act <;> simp [walk, walkKids]
+
+/-! ## non-vacuity -/
+
+example : (ids exTree).Nodup ∧ (0 : Nat) < [When.after].length := by decide
+example : restrict (.ext 0) (walk [.after] exTree).1 = [(.visit, 0), (.visit, 1), (.visit, 2)] := by decide
+example : (walk [.after] (.node 1 .skipSiblings [])).2 = true := by decide
+
+end Visitor
+
+/-! ## extensions registered later (`ExtList.add` on a live visitor)
+
+`ExtList.add` appends the new instances to the per-timing lists, so the registration list of the second walk is
+`exts ++ late`.  Registering more extensions changes nothing for those already there, nor for the main visitor. -/
+namespace Visitor
+
+theorem extsAux_append (w : When) : ∀ (a b : List When) (i : Nat),
+    extsAux w (a ++ b) i = extsAux w a i ++ extsAux w b (i + a.length)
+  | [], b, i => by simp [extsAux]
+  | x :: xs, b, i => by
+    have ih := extsAux_append w xs b (i + 1)
+    have e : i + 1 + xs.length = i + (xs.length + 1) := by omega
+    by_cases h : x = w <;> simp [extsAux, h, ih, e]
+
+/-- **extsOf_append**: within one timing class the extensions run in registration order, the ones added later
+after the ones already registered. -/
+theorem extsOf_append (a b : List When) (w : When) :
+    extsOf (a ++ b) w = extsOf a w ++ extsAux w b a.length := by
+  simp [extsOf, extsAux_append]
+
+/-- **late_add_ext_view**: what an already registered extension sees of a walk is not changed by registering
+further extensions (`ExtList.add` / `attach_visitor` on a live visitor). -/
+theorem late_add_ext_view (a b : List When) (t : Tree) (e : Nat) (he : e < a.length) :
+    restrict (.ext e) (walkabout (a ++ b) t).1 = restrict (.ext e) (walkabout a t).1 := by
+  rw [nested (a ++ b) t e (by simp; omega), nested a t e he]
+
+/-- … nor what the main visitor sees. -/
+theorem late_add_main_view (a b : List When) (t : Tree) :
+    restrict .main (walkabout (a ++ b) t).1 = restrict .main (walkabout a t).1 := by
+  rw [main_trace, main_trace]
+
+/-- … and the newcomers see the same balanced walk as everybody else. -/
+theorem late_add_new_view (a b : List When) (t : Tree) (e : Nat) (he : e < (a ++ b).length) :
+    restrict (.ext e) (walkabout (a ++ b) t).1 = brackets (prune t) :=
+  nested (a ++ b) t e he
+
+example : extsOf ([.before, .after] ++ [.before]) .before = [0, 2] := by decide
+
+end Visitor
